@@ -549,11 +549,19 @@ int bufr_descriptor_get_range ( BufrDescriptor *cb, double *min, double *max )
    imax = (1ULL << cb->encoding.nbits) - 1;
 
    x = DESC_TO_X( cb->descriptor );
-   if (x == 31)
-      *max = ( imax + cb->encoding.reference ) / scale_factor;
+   if (x != 31) imax -= 1;
+   if (cb->encoding.scale < 0)
+      {
+/* 10^-scale is exact where 10^scale is not: multiply by it rather than divide */
+      scale_factor = pow(10.0,(double)(-cb->encoding.scale));
+      *max = ( imax + cb->encoding.reference ) * scale_factor;
+      *min = cb->encoding.reference * scale_factor;
+      }
    else
-      *max = ( imax - 1 + cb->encoding.reference ) / scale_factor;
-   *min = cb->encoding.reference / scale_factor;
+      {
+      *max = ( imax + cb->encoding.reference ) / scale_factor;
+      *min = cb->encoding.reference / scale_factor;
+      }
    return 1;
    }
 
